@@ -265,6 +265,11 @@ def eager_contraction_generic_recursive(red_op, bin_op, reduced_vars, terms):
     for term in terms:
         counts.update(reduced_vars & term.input_vars)
 
+    # Pushing a reduction into a subset of the terms is valid only if
+    # bin_op distributes over red_op.
+    if (red_op, bin_op) not in ops.DISTRIBUTIVE_OPS:
+        counts.clear()
+
     # push down leaf reductions
     terms = list(terms)
     leaf_reduced = False
